@@ -286,6 +286,16 @@ impl Check for C14 {
             let dm = DataMapChunk::from(map1.clone());
             cs.sim.spawn(async move { client.data_get(dm).await })
         };
+        // one case in eight withholds one produced chunk (a holder that lost it): the read must then fail with an error,
+        // never return bytes
+        let withheld: Option<[u8; 32]> = if cx.rng.gen_bool(0.125) && !chunks1.is_empty() {
+            let victim = chunks1[cx.rng.gen_range(0..chunks1.len())].name().0;
+            store.remove(&victim);
+            cx.count("fetches-with-a-withheld-chunk");
+            Some(victim)
+        } else {
+            None
+        };
         let mut unknown_asked: Vec<String> = vec![];
         let mut drive_rng = rand::rngs::StdRng::clone(&cx.rng);
         let finished = {
@@ -298,7 +308,9 @@ impl Check for C14 {
                         vec![Reply::Found(0, rec.value), Reply::Finished]
                     }
                     None => {
-                        unknown_asked.push(hex(key.as_ref()));
+                        if k != withheld {
+                            unknown_asked.push(hex(key.as_ref()));
+                        }
                         vec![Reply::NotFound]
                     }
                 }
@@ -321,6 +333,14 @@ impl Check for C14 {
             cx.violation("client-asked-for-unproduced-address", format!("client asked for {} which encrypt did not produce", unknown_asked[0]), w.clone());
         }
         let w2 = json!({"len": len, "content": class, "max_chunk_size": max, "levels": levels, "public": public, "queries": cs.answered.len(), "chunks": chunks1.len()});
+        if withheld.is_some() {
+            match out {
+                Ok(Ok(bytes)) => cx.violation("bytes-returned-although-a-chunk-was-missing", format!("one of the {} chunks was not retrievable, yet the read returned {} bytes ({} were stored)", chunks1.len() + 1, bytes.len(), len), w2),
+                Ok(Err(_)) => cx.count("withheld-chunk-reported-as-error"),
+                Err(e) => cx.violation("fetch-task-panicked", format!("client fetch task died: {e} {}", crate::last_panic()), w2),
+            }
+            return;
+        }
         match out {
             Err(e) => cx.violation("fetch-task-panicked", format!("client fetch task died: {e} {}", crate::last_panic()), w2),
             Ok(Err(e)) => {
